@@ -24,8 +24,21 @@ static int tail_pos;
 long env_in_reads;		/* bytes delivered in total */
 #define TAIL_MAX 64		/* after so many tail bytes the input really ends */
 
+/* marks: when the byte at env_mark_at[k] is about to be delivered, remember how much terminal output exists
+ * and call the harness (it may look at the editor's state between two commands) */
+int env_mark_at[ENV_NMARK], env_nmarks;
+long env_mark_tty[ENV_NMARK];
+void (*env_mark_fn)(int k);
+
 static int in_next(void)
 {
+	int k;
+	for (k = 0; k < env_nmarks; k++)
+		if (env_in_pos == env_mark_at[k] && env_mark_tty[k] < 0) {
+			env_mark_tty[k] = env_tty_len;
+			if (env_mark_fn)
+				env_mark_fn(k);
+		}
 	if (env_in_pos < env_in_len) {
 		env_in_reads++;
 		return (unsigned char) env_in[env_in_pos++];
